@@ -188,7 +188,44 @@ def py_oracle_C17(case):
     return True
 
 
-PY_ORACLES = {"C17": py_oracle_C17}
+def py_oracle_C14(case):
+    """Popularity estimator facade: the estimate of a hash is at most 15 and at least the
+    number of increments recorded for it (saturating at 15), halved (rounding down) by every
+    aging step since; an estimate once observed can only go down through an aging step.
+    Aging steps are visible as a drop of the `size` reported after each increment."""
+    cfg = dict(f.split("=", 1) for f in op_of(case[0]).split()[1:] if "=" in f)
+    if cfg.get("kind") != "sketch":
+        return True
+    lb, prev = {}, 0
+    for l in case[1:]:
+        op, _, ob = l.partition(" -> ")
+        w = op.split()
+        ob = ob.strip()
+        if ob.startswith("panic") or ob == "bad-op":
+            return True
+        if w[0] == "skt.ensure":
+            lb, prev = {}, 0          # the table may have been reallocated: forget everything
+        elif w[0] == "skt.inc":
+            m = re.match(r"ok size=(\d+)$", ob)
+            if not m:
+                return False
+            n, h = int(m.group(1)), w[1]
+            lb[h] = min(15, lb.get(h, 0) + 1)
+            if n not in (prev, prev + 1):       # aging: every counter halved
+                lb = {k: v // 2 for k, v in lb.items()}
+            prev = n
+        elif w[0] == "skt.freq":
+            m = re.match(r"freq (\d+)$", ob)
+            if not m:
+                return False
+            f = int(m.group(1))
+            if f > 15 or f < lb.get(w[1], 0):
+                return False
+            lb[w[1]] = f
+    return True
+
+
+PY_ORACLES = {"C17": py_oracle_C17, "C14": py_oracle_C14}
 
 
 def split_cases(text):
